@@ -149,6 +149,11 @@ func (p *pgen) maybe(num, den int, k string, pool []string) {
 		v := common.Pick(p.g.R, pool)
 		if p.g.R.Chance(1, 12) && v != "0" {
 			v += "/8" // non-minimal encoding of the natural
+		} else if p.g.R.Chance(1, 14) {
+			// MALFORMED: a non-negative integer is 1, 2, 4 or 8 bytes long (NDN packet format); the whole
+			// ControlParameters element is then undecodable and the command must be refused
+			v += common.Pick(p.g.R, []string{"/3", "/3", "/5", "/6", "/7", "/9"})
+			p.g.Stat("field.bad-width")
 		}
 		p.add(k, v)
 		p.g.Stat("field." + k)
